@@ -817,7 +817,8 @@ def reopen_after_drop_one(args):
     """history: the connection is established, the broker drops the TCP connection and nobody has polled the connection yet
     (its state flag still says OPEN); the application re-opens the same object.  open() must run a handshake of its own and
     report its outcome: success only after that handshake's Connection.OpenOk, AMQPConnectionError(code) if it is refused."""
-    at, code, seed = args
+    at, code, seed = args[:3]
+    partial = args[3] if len(args) > 3 else 0
     import amqpstorm
     from harness import refbroker, vrt
     policy = refbroker.Policy()
@@ -826,6 +827,11 @@ def reopen_after_drop_one(args):
     def scenario(ctx):
         conn = amqpstorm.Connection('localhost', 'guest', 'guest', heartbeat=0, timeout=5)
         first = ctx.net.brokers[0]
+        if partial:
+            # the first broker dies in the middle of a frame: the start of a 1000-byte body frame, then the socket goes
+            from pamqp import body as pbody
+            ctx.net.deliver(first.sock, pframe.marshal(pbody.ContentBody(b'z' * 1000), 1)[:partial])
+            ctx.quiesce()
         first.close_socket()
         # the reader notices the drop and records it (it then ends); nobody polls the connection, so its state stays OPEN.
         # (Re-opening while the old reader is still alive - before it has seen the end of the stream - is not a history the
@@ -860,12 +866,13 @@ def reopen_after_drop_one(args):
 
 def check_reopen_after_drop(rep, rng, thorough):
     from harness import par
-    jobs = [(rng.choice([None, 'start-ok', 'tune-ok', 'open']), rng.choice([403, 530, 541]), rng.randrange(1 << 30))
+    jobs = [(rng.choice([None, 'start-ok', 'tune-ok', 'open']), rng.choice([403, 530, 541]), rng.randrange(1 << 30),
+             rng.choice([0, 0, 3, 7, 300]))
             for _ in range(40 if not thorough else 800)]
-    for (at, code, seed), r in zip(jobs, par.pmap(reopen_after_drop_one, jobs)):
+    for (at, code, seed, partial), r in zip(jobs, par.pmap(reopen_after_drop_one, jobs)):
         rep.case(('reopen-after-drop', at, code, seed), True)
         rep.count('kind', 'reopen-after-drop')
-        replay = {'reopen_after_drop': {'at': at, 'code': code, 'seed': seed}}
+        replay = {'reopen_after_drop': {'at': at, 'code': code, 'seed': seed, 'partial': partial}}
         want = ('opened', None) if at is None else ('connection-error', code)
         if r.get('res') != want or r.get('handshakes', 0) < 2:
             sig = 'C09/reopen-reports-success-without-handshake' if r.get('res') == ('opened', None) and at is not None else 'C09/reopen-outcome'
@@ -920,7 +927,7 @@ def replay(data):
     r = data['replay']
     if 'reopen_after_drop' in r:
         q = r['reopen_after_drop']
-        o = reopen_after_drop_one((q['at'], q['code'], q['seed']))
+        o = reopen_after_drop_one((q['at'], q['code'], q['seed'], q.get('partial', 0)))
         want = ('opened', None) if q['at'] is None else ('connection-error', q['code'])
         print(o)
         print('VIOLATION reproduced' if o.get('res') != want else 'property holds on this input')
